@@ -434,19 +434,21 @@ pub fn run() -> i32 {
             ($($n:literal),*) => {$(
                 {
                     let arr: [u8; $n] = std::array::from_fn(|i| (i as u8).wrapping_mul(37).wrapping_add(11));
+                    // each conversion under its own guard: a panic is that conversion's failure
+                    let g = |f: &dyn Fn() -> Vec<u8>| guarded(AssertUnwindSafe(f)).unwrap_or_else(|p| format!("panic: {}", p).into_bytes());
                     let mut cells: Vec<(&str, Vec<u8>)> = vec![
-                        ("StackByteArray::from(&[u8; N])", SB::<$n>::from(&arr).as_slice().to_vec()),
-                        ("StackByteArray::from([u8; N])", SB::<$n>::from(arr).as_slice().to_vec()),
-                        ("StackByteArray::try_from(&[u8])", SB::<$n>::try_from(&arr[..]).map(|x| x.as_slice().to_vec()).unwrap_or_default()),
+                        ("StackByteArray::from(&[u8; N])", g(&|| SB::<$n>::from(&arr).as_slice().to_vec())),
+                        ("StackByteArray::from([u8; N])", g(&|| SB::<$n>::from(arr).as_slice().to_vec())),
+                        ("StackByteArray::try_from(&[u8])", g(&|| SB::<$n>::try_from(&arr[..]).map(|x| x.as_slice().to_vec()).unwrap_or_default())),
                     ];
                     #[cfg(feature = "nightly")]
                     {
                         use dryoc::protected::{HeapByteArray, HeapBytes};
-                        cells.push(("HeapByteArray::from(&[u8; N])", HeapByteArray::<$n>::from(&arr).as_slice().to_vec()));
-                        cells.push(("HeapByteArray::from([u8; N])", HeapByteArray::<$n>::from(arr).as_slice().to_vec()));
-                        cells.push(("HeapByteArray::from(StackByteArray)", HeapByteArray::<$n>::from(SB::<$n>::from(&arr)).as_slice().to_vec()));
-                        cells.push(("HeapByteArray::try_from(&[u8])", HeapByteArray::<$n>::try_from(&arr[..]).map(|x| x.as_slice().to_vec()).unwrap_or_default()));
-                        cells.push(("HeapBytes::from(&[u8])", HeapBytes::from(&arr[..]).as_slice().to_vec()));
+                        cells.push(("HeapByteArray::from(&[u8; N])", g(&|| HeapByteArray::<$n>::from(&arr).as_slice().to_vec())));
+                        cells.push(("HeapByteArray::from([u8; N])", g(&|| HeapByteArray::<$n>::from(arr).as_slice().to_vec())));
+                        cells.push(("HeapByteArray::from(StackByteArray)", g(&|| HeapByteArray::<$n>::from(SB::<$n>::from(&arr)).as_slice().to_vec())));
+                        cells.push(("HeapByteArray::try_from(&[u8])", g(&|| HeapByteArray::<$n>::try_from(&arr[..]).map(|x| x.as_slice().to_vec()).unwrap_or_default())));
+                        cells.push(("HeapBytes::from(&[u8])", g(&|| HeapBytes::from(&arr[..]).as_slice().to_vec())));
                     }
                     for (name, got) in cells {
                         let ok = got == arr.to_vec();
